@@ -104,8 +104,10 @@ def check(run, ctx):
     for ch in choices:
         if ch == "text":
             # else branch
-            els = [call_name(x) for n in ast.walk(fv.node) if isinstance(n, ast.If) for x in ast.walk(ast.Module(body=n.orelse, type_ignores=[])) if isinstance(x, ast.Call)]
-            (run.ok(X3, "format text", "-> _output_text") if "_output_text" in els else run.finding(X3, "format_violations", "text", "the text format does not reach _output_text", fv.loc))
+            # the fallback: _output_text is called outside every `if format == <name>:` body (else arm, or after guard clauses)
+            in_named = {id(x) for n in ast.walk(fv.node) if isinstance(n, ast.If) and isinstance(n.test, ast.Compare) and isinstance(n.test.ops[0], ast.Eq) for b_ in n.body for x in ast.walk(b_)}
+            fallback = [x for x in ast.walk(fv.node) if isinstance(x, ast.Call) and call_name(x) == "_output_text" and id(x) not in in_named]
+            (run.ok(X3, "format text", "-> _output_text") if fallback else run.finding(X3, "format_violations", "text", "the text format does not reach _output_text", fv.loc))
         elif disp.get(ch) == want.get(ch):
             run.ok(X3, f"format {ch}", f"-> {disp[ch]}")
         else:
